@@ -3,5 +3,386 @@ import Panoptica.Properties.C04
 import Panoptica.Properties.C03
 import Panoptica.Properties.C14
 import Panoptica.Properties.C09
+import Panoptica.Properties.C01
+import Panoptica.Proofs.Invariance
 namespace Panoptica
+namespace Values
+
+/-- the `GoodMap` hypotheses (unbundled copy usable by the helper lemmas) -/
+structure Good (lm : LMap) (pred ref : Flat) : Prop where
+  keys : ∀ e ∈ lm, e.1 ∈ labelsOf pred
+  vals : ∀ e ∈ lm, e.2 ∈ labelsOf ref
+  functional : ∀ e ∈ lm, ∀ e' ∈ lm, e.1 = e'.1 → e.2 = e'.2
+
+/-- the label renaming of the relabelling step -/
+abbrev rf (lm : LMap) (pred ref : Flat) : Lab → Lab :=
+  C04.relabelFn lm (labelsOf ref) (labelsOf pred)
+
+/-! ### label map facts -/
+
+theorem lookup_some_mem (lm : LMap) (p r : Lab) (h : lm.lookup p = some r) : (p, r) ∈ lm := by
+  unfold LMap.lookup at h
+  cases hf : lm.find? (fun e => e.1 == p) with
+  | none => rw [hf] at h; simp at h
+  | some e =>
+    rw [hf] at h
+    have hr : e.2 = r := by simpa using h
+    have hm := List.mem_of_find?_eq_some hf
+    have hk : e.1 = p := by simpa using List.find?_some hf
+    rw [← hk, ← hr]; exact hm
+
+theorem mem_predsOf (lm : LMap) (r x : Lab) : x ∈ lm.predsOf r ↔ (x, r) ∈ lm := by
+  unfold LMap.predsOf
+  rw [List.mem_map]
+  constructor
+  · rintro ⟨e, he, rfl⟩
+    obtain ⟨h1, h2⟩ := List.mem_filter.1 he
+    have : e.2 = r := by simpa using h2
+    rw [← this]; exact h1
+  · intro h
+    exact ⟨(x, r), List.mem_filter.2 ⟨h, by simp⟩, rfl⟩
+
+theorem containsRef_eq_true (lm : LMap) (r : Lab) :
+    lm.containsRef r = true ↔ ∃ e ∈ lm, e.2 = r := by
+  simp [LMap.containsRef]
+
+variable {lm : LMap} {pred ref : Flat}
+
+theorem lookup_of_mem (hg : Good lm pred ref) (e : Lab × Lab) (he : e ∈ lm) :
+    lm.lookup e.1 = some e.2 := by
+  obtain ⟨r, hr⟩ := lookup_of_key lm e.1 ⟨e, he, rfl⟩
+  have hm := lookup_some_mem lm e.1 r hr
+  have := hg.functional (e.1, r) hm e he rfl
+  rw [hr]; exact congrArg some this
+
+theorem rf_zero (hg : Good lm pred ref) : rf lm pred ref 0 = 0 :=
+  C04.background_kept lm _ _ (fun e he => ((mem_labelsOf pred _).1 (hg.keys e he)).2)
+    (fun p hp => ((mem_labelsOf pred p).1 hp).2)
+
+theorem rf_mem (hg : Good lm pred ref) (e : Lab × Lab) (he : e ∈ lm) :
+    rf lm pred ref e.1 = e.2 :=
+  C04.matched_label lm _ _ e.1 e.2 (lookup_of_mem hg e he)
+
+theorem rf_unmatched (x : Lab) (hx : x ∈ labelsOf pred) (hun : ∀ e ∈ lm, e.1 ≠ x) :
+    rf lm pred ref x ∉ labelsOf ref :=
+  (C04.fresh_outside_ref lm (labelsOf ref) (labelsOf pred) x hx
+    ((containsPred_eq_false lm x).2 hun)).2
+
+/-- pointwise characterisation of the renaming on the values of the prediction array -/
+theorem rf_eq_iff (hg : Good lm pred ref) (r : Lab) (hr : r ∈ labelsOf ref) (x : Lab) (hx : x ∈ pred) :
+    rf lm pred ref x = r ↔ (x, r) ∈ lm := by
+  have hr0 : r ≠ 0 := ((mem_labelsOf ref r).1 hr).2
+  by_cases hx0 : x = 0
+  · subst hx0
+    rw [rf_zero hg]
+    constructor
+    · intro h; exact absurd h.symm hr0
+    · intro h
+      exact absurd rfl ((mem_labelsOf pred _).1 (hg.keys _ h)).2
+  · have hxl : x ∈ labelsOf pred := (mem_labelsOf pred x).2 ⟨hx, hx0⟩
+    by_cases hk : ∃ e ∈ lm, e.1 = x
+    · obtain ⟨e, he, rfl⟩ := hk
+      rw [rf_mem hg e he]
+      constructor
+      · intro h; rw [← h]; exact he
+      · intro h; exact (hg.functional (e.1, r) h e he rfl).symm
+    · have hun : ∀ e ∈ lm, e.1 ≠ x := fun e he h => hk ⟨e, he, h⟩
+      have hout := rf_unmatched (lm := lm) (ref := ref) x hxl hun
+      constructor
+      · intro h; rw [h] at hout; exact absurd hr hout
+      · intro h; exact absurd rfl (hun _ h)
+
+theorem contains_rf (hg : Good lm pred ref) (r : Lab) (hr : r ∈ labelsOf ref) (x : Lab) (hx : x ∈ pred) :
+    [r].contains (rf lm pred ref x) = (lm.predsOf r).contains x := by
+  rw [Bool.eq_iff_iff, List.contains_iff_mem, List.contains_iff_mem, List.mem_singleton,
+    mem_predsOf]
+  exact rf_eq_iff hg r hr x hx
+
+theorem selPred_map_rf (hg : Good lm pred ref) (r : Lab) (hr : r ∈ labelsOf ref) :
+    selPred (pred.map (rf lm pred ref)) [r] = selPred pred (lm.predsOf r) := by
+  simp only [selPred, List.map_map]
+  apply List.map_congr_left
+  intro x hx
+  exact contains_rf hg r hr x hx
+
+/-! ### voxels of a mapped array -/
+
+theorem voxels_map (s : List Nat) (a : Flat) (f : Lab → Lab) :
+    (Arr.voxels ⟨s, a.map f⟩) = (Arr.voxels ⟨s, a⟩).map (fun v => (v.1, f v.2)) := by
+  simp only [Arr.voxels]
+  rw [List.zip_map_right]
+  rfl
+
+theorem coordsWhere_map (s : List Nat) (a : Flat) (f : Lab → Lab) (p q : Lab → Bool)
+    (h : ∀ x ∈ a, p (f x) = q x) :
+    coordsWhere ⟨s, a.map f⟩ p = coordsWhere ⟨s, a⟩ q := by
+  unfold coordsWhere
+  rw [voxels_map, List.filter_map, List.map_map]
+  have hmem : ∀ v ∈ Arr.voxels ⟨s, a⟩, v.2 ∈ a := by
+    intro v hv
+    simp only [Arr.voxels] at hv
+    exact (List.of_mem_zip (a := v.1) (b := v.2) hv).2
+  have hf : List.filter ((fun v : Coord × Lab => p v.2) ∘ fun v => (v.1, f v.2)) (Arr.voxels ⟨s, a⟩)
+      = List.filter (fun v => q v.2) (Arr.voxels ⟨s, a⟩) := by
+    apply List.filter_congr
+    intro v hv
+    exact h v.2 (hmem v hv)
+  rw [hf]
+  apply List.map_congr_left
+  intro v _
+  rfl
+
+theorem metricOn_map_rf (m : Metric) (s : List Nat) (hg : Good lm pred ref) (r : Lab)
+    (hr : r ∈ labelsOf ref) :
+    metricOn m ⟨s, pred.map (rf lm pred ref)⟩ ⟨s, ref⟩ r [r] =
+      metricOn m ⟨s, pred⟩ ⟨s, ref⟩ r (lm.predsOf r) := by
+  have hsel := selPred_map_rf hg r hr
+  cases m with
+  | IOU => simp only [metricOn, iouSel, selectPair, hsel]
+  | DSC => simp only [metricOn, diceSel, selectPair, hsel]
+  | RVD => simp only [metricOn, rvdSel, selectPair, hsel]
+  | clDSC => rfl
+  | ASSD =>
+    simp only [metricOn]
+    rw [coordsWhere_map s pred (rf lm pred ref) (fun l => [r].contains l)
+      (fun l => (lm.predsOf r).contains l) (fun x hx => contains_rf hg r hr x hx)]
+
+/-! ### matched instances -/
+
+theorem sorted_filter (p : Nat → Bool) (l : List Nat) (h : l.Pairwise (· < ·)) :
+    (l.filter p).Pairwise (· < ·) := h.filter p
+
+theorem labelsOf_sorted (a : Flat) : (labelsOf a).Pairwise (· < ·) := uniqueSorted_sorted _
+
+theorem matchedInstances_map_rf (hg : Good lm pred ref) :
+    matchedInstances (pred.map (rf lm pred ref)) ref =
+      (labelsOf ref).filter (fun r => lm.containsRef r) := by
+  unfold matchedInstances
+  apply sorted_ext _ _ (sorted_filter _ _ (labelsOf_sorted _)) (sorted_filter _ _ (labelsOf_sorted _))
+  intro x
+  rw [List.mem_filter, List.mem_filter, List.contains_iff_mem, containsRef_eq_true, mem_labelsOf,
+    List.mem_map]
+  constructor
+  · rintro ⟨⟨⟨y, hy, hyx⟩, _⟩, hxr⟩
+    refine ⟨hxr, (y, x), ?_, rfl⟩
+    exact (rf_eq_iff hg x hxr y hy).1 hyx
+  · rintro ⟨hxr, e, he, rfl⟩
+    have hk := (mem_labelsOf pred _).1 (hg.keys e he)
+    refine ⟨⟨⟨e.1, hk.1, rf_mem hg e he⟩, ((mem_labelsOf ref _).1 hxr).2⟩, hxr⟩
+
+/-! ### both matchers produce a good map -/
+
+theorem nodup_fst_functional (lm : LMap) (h : (lm.map (·.1)).Nodup) :
+    ∀ e ∈ lm, ∀ e' ∈ lm, e.1 = e'.1 → e.2 = e'.2 := by
+  induction lm with
+  | nil => intro e he; cases he
+  | cons a l ih =>
+    rw [List.map_cons, List.nodup_cons] at h
+    intro e he e' he' hk
+    rcases List.mem_cons.1 he with rfl | he1 <;> rcases List.mem_cons.1 he' with rfl | he2
+    · rfl
+    · exact absurd (List.mem_map.2 ⟨e', he2, hk.symm⟩) h.1
+    · exact absurd (List.mem_map.2 ⟨e, he1, hk⟩) h.1
+    · exact ih h.2 e he1 e' he2 hk
+
+/-- every entry of the merge matcher's label map comes from a candidate -/
+theorem merge_entries {S : Type} (le : S → S → Bool) (dec : Bool) (thr : S)
+    (comb : Lab → List Lab → S) (cs : List (Cand S)) :
+    ∀ e ∈ (mergeLoop le dec thr comb cs).lmap, ∃ c ∈ cs, c.pred = e.1 ∧ c.ref = e.2 := by
+  unfold mergeLoop
+  apply foldl_inv (mergeStep le dec thr comb)
+    (fun st => ∀ e ∈ st.lmap, ∃ c ∈ cs, c.pred = e.1 ∧ c.ref = e.2) (· ∈ cs) ?_ cs _ (fun _ h => h)
+  · intro e he; cases he
+  · intro st c hc h
+    rcases C14.step_cases le dec thr comb st c with e | ⟨_, _, _, e⟩ | ⟨_, _, e⟩
+    · rw [e]; exact h
+    all_goals
+      rw [e]
+      intro x hx
+      rcases List.mem_append.1 hx with hx | hx
+      · exact h x hx
+      · rw [List.mem_singleton] at hx
+        subst hx
+        exact ⟨c, hc, rfl, rfl⟩
+
+/-- a candidate pair consists of non-zero labels present in the arrays -/
+theorem cand_labels (metric : Metric) (pred ref : Arr) (hlen : pred.data.length = ref.data.length)
+    (hbp : ∀ x ∈ pred.data, x < 2 ^ 32) (hbr : ∀ x ∈ ref.data, x < 2 ^ 32 - 1)
+    (c : Cand Score) (hc : c ∈ sortBest Score.le metric.decreasing (scoredCands metric pred ref)) :
+    c.pred ∈ labelsOf pred.data ∧ c.ref ∈ labelsOf ref.data := by
+  have hc' : c ∈ scoredCands metric pred ref := by
+    unfold sortBest at hc
+    exact List.mem_mergeSort.1 hc
+  obtain ⟨hr0, hp0, hov⟩ := (C01.scoredCands_spec metric pred ref hlen hbp hbr c.ref c.pred).1
+    ⟨c, hc', rfl, rfl⟩
+  have hz := List.of_mem_zip ((overlaps_iff pred.data ref.data c.ref c.pred).1 hov)
+  exact ⟨(mem_labelsOf _ _).2 ⟨hz.1, hp0⟩, (mem_labelsOf _ _).2 ⟨hz.2, hr0⟩⟩
+
+theorem runMatcher_good (mc : MatcherCfg) (pred ref : Arr) (hlen : pred.data.length = ref.data.length)
+    (hb : ∀ x ∈ pred.data ++ ref.data, x < 2 ^ 32 - 1)
+    (lm : LMap) (h : runMatcher mc pred ref = .ok lm) : Good lm pred.data ref.data := by
+  have hbp : ∀ x ∈ pred.data, x < 2 ^ 32 := fun x hx =>
+    lt32_of_lt x (hb x (List.mem_append_left _ hx))
+  have hbr : ∀ x ∈ ref.data, x < 2 ^ 32 - 1 := fun x hx => hb x (List.mem_append_right _ hx)
+  obtain ⟨kind, metric, thr⟩ := mc
+  unfold runMatcher at h
+  cases kind with
+  | naive m2o =>
+    simp only at h
+    rw [C03.naive_total] at h
+    cases h
+    have hs := C03.sound Score.le metric.decreasing thr m2o
+      (sortBest Score.le metric.decreasing (scoredCands metric pred ref))
+    refine ⟨?_, ?_, nodup_fst_functional _ (C03.functional Score.le metric.decreasing thr m2o _)⟩
+    · intro e he
+      obtain ⟨c, hc, h1, _, _⟩ := hs e he
+      rw [← h1]; exact (cand_labels metric pred ref hlen hbp hbr c hc).1
+    · intro e he
+      obtain ⟨c, hc, _, h2, _⟩ := hs e he
+      rw [← h2]; exact (cand_labels metric pred ref hlen hbp hbr c hc).2
+  | merge =>
+    simp only at h
+    cases h
+    unfold mergeMatch
+    have hs := merge_entries Score.le metric.decreasing thr
+      (fun r ps => metricOn metric pred ref r ps)
+      (sortBest Score.le metric.decreasing (scoredCands metric pred ref))
+    refine ⟨?_, ?_, nodup_fst_functional _ (C14.merge_functional Score.le metric.decreasing thr _ _)⟩
+    · intro e he
+      obtain ⟨c, hc, h1, _⟩ := hs e he
+      rw [← h1]; exact (cand_labels metric pred ref hlen hbp hbr c hc).1
+    · intro e he
+      obtain ⟨c, hc, _, h2⟩ := hs e he
+      rw [← h2]; exact (cand_labels metric pred ref hlen hbp hbr c hc).2
+
+theorem runMatcher_total (mc : MatcherCfg) (pred ref : Arr) : ∃ lm, runMatcher mc pred ref = .ok lm := by
+  obtain ⟨kind, metric, thr⟩ := mc
+  unfold runMatcher
+  cases kind with
+  | naive m2o => exact ⟨_, C03.naive_total Score.le metric.decreasing thr m2o _⟩
+  | merge => exact ⟨_, rfl⟩
+
+/-! ### evaluation -/
+
+theorem find?_map_key {V : Type} (f : Metric → V) (ms : List Metric) (m : Metric) (hm : m ∈ ms) :
+    (ms.map (fun m => (m, f m))).find? (fun e => e.1 == m) = some (m, f m) := by
+  induction ms with
+  | nil => cases hm
+  | cons a l ih =>
+    rw [List.map_cons, List.find?_cons]
+    by_cases ha : a = m
+    · subst ha; simp
+    · have : ((a, f a).1 == m) = false := by simpa using ha
+      rw [this]
+      rcases List.mem_cons.1 hm with h | h
+      · exact absurd h.symm ha
+      · exact ih h
+
+/-- `evalMatched` on dictionaries built from a score function -/
+theorem evalMatched_score {V : Type} (le : V → V → Bool) (ms : List Metric)
+    (decision : Option (Metric × V)) (labels : List Lab) (score : Metric → Lab → V) :
+    evalMatched le ms decision (labels.map (fun r => ms.map (fun m => (m, score m r)))) =
+      ((labels.filter (fun r => passesDecision le decision (ms.map (fun m => (m, score m r))))).length,
+       ms.map (fun m => (m, (labels.filter (fun r =>
+          passesDecision le decision (ms.map (fun m => (m, score m r))))).map (score m)))) := by
+  unfold evalMatched
+  simp only [List.filter_map, List.length_map]
+  congr 1
+  apply List.map_congr_left
+  intro m hm
+  congr 1
+  rw [List.filterMap_map]
+  rw [← List.filterMap_eq_map]
+  apply List.filterMap_congr
+  intro r _
+  simp only [Function.comp_apply]
+  rw [find?_map_key (fun m => score m r) ms m hm]
+  rfl
+
+/-- the bound needed by the relabelling step -/
+theorem bounded_of_good (hg : Good lm pred ref) (hb : ∀ x ∈ pred ++ ref, x < 2 ^ 32 - 1) :
+    C04.Bounded pred lm (labelsOf ref) (labelsOf pred) := by
+  have hbp : ∀ x ∈ pred, x < 2 ^ 32 - 1 := fun x hx => hb x (List.mem_append_left _ hx)
+  have hbr : ∀ x ∈ ref, x < 2 ^ 32 - 1 := fun x hx => hb x (List.mem_append_right _ hx)
+  have hmax := maxRef_bound ref hbr
+  have hlenL := labelsOf_length_le pred (2 ^ 32) (fun x hx => lt32_of_lt x (hbp x hx))
+  refine ⟨?_, ?_, ?_, ?_⟩
+  · intro x hx
+    exact lt64_of_lt x (hbp x hx)
+  · intro e he
+    exact ⟨lt64_of_lt _ (hbp _ ((mem_labelsOf pred _).1 (hg.keys e he)).1),
+      lt64_of_lt _ (hbr _ ((mem_labelsOf ref _).1 (hg.vals e he)).1)⟩
+  · intro q hq
+    exact lt64_of_lt q (hbp q ((mem_labelsOf pred q).1 hq).1)
+  · omega
+
+theorem labelsOf_map_rf_ne_nil (hg : Good lm pred ref) (hp : labelsOf pred ≠ []) :
+    labelsOf (pred.map (rf lm pred ref)) ≠ [] := by
+  cases hl : labelsOf pred with
+  | nil => exact absurd hl hp
+  | cons p ps =>
+    have hpm : p ∈ labelsOf pred := by rw [hl]; exact List.mem_cons_self ..
+    have hne := C04.foreground_kept lm (labelsOf ref) (labelsOf pred)
+      (fun e he => ((mem_labelsOf ref _).1 (hg.vals e he)).2) p hpm
+    have : rf lm pred ref p ∈ labelsOf (pred.map (rf lm pred ref)) :=
+      (mem_labelsOf _ _).2 ⟨List.mem_map.2 ⟨p, ((mem_labelsOf pred p).1 hpm).1, rfl⟩, hne⟩
+    intro h
+    rw [h] at this
+    cases this
+
+/-- end to end (unbundled form of `C01.pipeline_unmatched_values`) -/
+theorem pipeline_values (cfg : Config) (bits : Nat) (s : List Nat) (pred ref : Flat) (mc : MatcherCfg)
+    (hin : cfg.input = .UNMATCHED) (hm : cfg.matcher = some mc)
+    (hlen : pred.length = ref.length) (hb : ∀ x ∈ pred ++ ref, x < 2 ^ 32 - 1)
+    (hp : labelsOf pred ≠ []) (hr : labelsOf ref ≠ [])
+    (out : PipeOut) (h : pipeline cfg bits ⟨s, pred⟩ ⟨s, ref⟩ = .ok out) :
+    ∃ lm, runMatcher mc ⟨s, pred⟩ ⟨s, ref⟩ = .ok lm ∧ out.lmap = some lm ∧
+      out.matchedPred = some (pred.map (rf lm pred ref)) ∧
+      out.nRef = (labelsOf ref).length ∧
+      out.tp = (((labelsOf ref).filter (fun r => lm.containsRef r)).filter (fun r =>
+         passesDecision Score.le cfg.decision (cfg.evalMetrics.map (fun m =>
+           (m, metricOn m ⟨s, pred⟩ ⟨s, ref⟩ r (lm.predsOf r)))))).length ∧
+      out.lists = cfg.evalMetrics.map (fun m => (m,
+        (((labelsOf ref).filter (fun r => lm.containsRef r)).filter (fun r =>
+         passesDecision Score.le cfg.decision (cfg.evalMetrics.map (fun m =>
+           (m, metricOn m ⟨s, pred⟩ ⟨s, ref⟩ r (lm.predsOf r)))))).map
+          (fun r => metricOn m ⟨s, pred⟩ ⟨s, ref⟩ r (lm.predsOf r)))) := by
+  obtain ⟨lm, hrun⟩ := runMatcher_total mc ⟨s, pred⟩ ⟨s, ref⟩
+  have hg : Good lm pred ref := runMatcher_good mc ⟨s, pred⟩ ⟨s, ref⟩ hlen hb lm hrun
+  refine ⟨lm, hrun, ?_⟩
+  have hn : ((labelsOf pred).length == 0 || (labelsOf ref).length == 0) = false := by
+    cases h1 : labelsOf pred with
+    | nil => exact absurd h1 hp
+    | cons _ _ =>
+      cases h2 : labelsOf ref with
+      | nil => exact absurd h2 hr
+      | cons _ _ => simp
+  unfold pipeline at h
+  rw [hin] at h
+  change matchPhase cfg bits ⟨s, pred⟩ ⟨s, ref⟩ (labelsOf pred).length (labelsOf ref).length = _ at h
+  rw [matchPhase_of_nonzero cfg bits ⟨s, pred⟩ ⟨s, ref⟩ _ _ mc lm hn hm hrun] at h
+  change evalPhase cfg ⟨s, mapInstanceLabels bits pred (labelsOf ref) (labelsOf pred) lm⟩ ⟨s, ref⟩ _ _ = _ at h
+  rw [C04.relabel_pointwise bits pred lm _ _ (bounded_of_good hg hb)] at h
+  change evalPhase cfg ⟨s, pred.map (rf lm pred ref)⟩ ⟨s, ref⟩ (some lm)
+    (some (pred.map (rf lm pred ref))) = _ at h
+  rw [evalPhase_of_nonzero cfg ⟨s, pred.map (rf lm pred ref)⟩ ⟨s, ref⟩ _ _
+    (labelsOf_map_rf_ne_nil hg hp) hr] at h
+  have hd : (matchedInstances (pred.map (rf lm pred ref)) ref).map
+      (evaluateInstance cfg.evalMetrics ⟨s, pred.map (rf lm pred ref)⟩ ⟨s, ref⟩) =
+      ((labelsOf ref).filter (fun r => lm.containsRef r)).map (fun r => cfg.evalMetrics.map
+        (fun m => (m, metricOn m ⟨s, pred⟩ ⟨s, ref⟩ r (lm.predsOf r)))) := by
+    rw [matchedInstances_map_rf hg]
+    apply List.map_congr_left
+    intro r hrm
+    have hrl : r ∈ labelsOf ref := (List.mem_filter.1 hrm).1
+    unfold evaluateInstance
+    apply List.map_congr_left
+    intro m _
+    rw [metricOn_map_rf m s hg r hrl]
+  simp only at h
+  rw [hd, evalMatched_score] at h
+  cases h
+  exact ⟨rfl, rfl, rfl, rfl, rfl⟩
+
+end Values
 end Panoptica
